@@ -28,6 +28,8 @@ TEMPLATES = [
     "lambda x: x * {k} + {r}",
     "def {n}(x): return u + x",
     "def {n}(x):\n    try:\n        return {a}(x)\n    except (NameError, AttributeError, TypeError):\n        return -{k}",
+    "def {n}(x): return {r}(x) + {k}",          # {r}: a reference holding a cells
+    "def {n}(x): return {c}[{k}].{a}(x) + 1",   # through an ItemSpace of a parametrised child
 ]
 
 
@@ -37,7 +39,7 @@ def formula_src(name, t):
     return TEMPLATES[i].format(n=name, k=k, a=a, r=r, c=c)
 
 
-NEEDS = [set(), {"a"}, {"r"}, {"c", "cr"}, {"c", "ca"}, {"a"}, {"r"}, {"u"}, {"a"}]
+NEEDS = [set(), {"a"}, {"r"}, {"c", "cr"}, {"c", "ca"}, {"a"}, {"r"}, {"u"}, {"a"}, {"ro"}, {"ci"}]
 
 
 def gen_formula(rng, spaces, space=None):
@@ -54,8 +56,16 @@ def gen_formula(rng, spaces, space=None):
         have.add("r")
     if "u" in refs:
         have.add("u")
-    ch_ref = [(c, r) for c in childs for r in space.spaces[c].refs if not r.startswith("_")]
+    ch_ref = [(c, r) for c in childs for r in space.spaces[c].refs if not r.startswith("_")
+              and not hasattr(space.spaces[c].refs[r], "_impl")]
     ch_cells = [(c, a) for c in childs for a in space.spaces[c].cells]
+    obj_refs = [r for r in refs if type(space.refs[r]).__name__ == "Cells"]
+    refs = [r for r in refs if not hasattr(space.refs[r], "_impl")]
+    ch_item = [(c, a) for c in childs if space.spaces[c].formula is not None for a in space.spaces[c].cells]
+    if obj_refs:
+        have.add("ro")
+    if ch_item:
+        have.add("ci")
     if ch_ref:
         have |= {"c", "cr"}
     if ch_cells:
@@ -69,6 +79,11 @@ def gen_formula(rng, spaces, space=None):
         c, r = rng.choice(ch_ref)
     if i == 4:
         c, a = rng.choice(ch_cells)
+    if i == 9:
+        r = rng.choice(obj_refs)
+    if i == 10:
+        c, a = rng.choice(ch_item)
+        return (i, rng.randint(0, 1), a, r, c)
     return (i, rng.randint(1, 5), a, r, c)
 
 
@@ -182,6 +197,12 @@ class Live:
         if k == "eval":
             v = self.space(op[1]).cells[op[2]](op[3])
             return "ok " + val_repr(v)
+        if k == "set_param":
+            self.space(op[1]).formula = "lambda i: None" if op[2] else None
+            return "ok"
+        if k == "eval_item":
+            v = self.space(op[1])[op[2]].cells[op[3]](op[4])
+            return "ok " + val_repr(v)
         if k == "allow_none":
             self.space(op[1]).allow_none = op[2]
             return "ok"
@@ -249,7 +270,7 @@ def describe(model, with_values=True):
     for path, s in all_spaces(model):
         sd = {"direct_bases": [rel(model, b) for b in s._direct_bases],
               "bases": [rel(model, b) for b in s.bases],
-              "cells": {}, "refs": {}, "children": sorted(s.spaces)}
+              "cells": {}, "refs": {}, "children": sorted(s.spaces), "param": s.formula is not None}
         for cn, c in s.cells.items():
             cd = {"derived": bool(c._is_derived()), "src": c.formula.source if c.formula else None,
                   "cached": bool(c.is_cached), "allow_none": c.allow_none}
@@ -274,6 +295,7 @@ def definitions(model):
             "direct_bases": sd["direct_bases"],
             "cells": {n: c for n, c in sd["cells"].items() if not c["derived"]},
             "refs": {n: r for n, r in sd["refs"].items() if not r["derived"]},
+            "param": sd["param"],
         }
     return out
 
